@@ -44,7 +44,7 @@ class Type:
 
     def fields(self):
         u = self.under()
-        return [(f["name"], self.prog.types[f["t"]], f["emb"]) for f in u.d["fields"]]
+        return [(f["name"], self.prog.types[f["t"]], f["emb"]) for f in (u.d.get("fields") or [])]
 
     def name(self):
         t = self
